@@ -454,18 +454,7 @@ def run(prog, rep):
                 ib = [i for i, c in enumerate(chain) if c[0] == b]
                 if ia and ib and ib[0] < ia[0]:
                     rep.ok('R13.2', 'order|%s before its prefix %s' % (b, a))
-    for f in sorted(prog.funcs.values(), key=lambda g: g.id):
-        if strip_targs(f.q) != NS + 'StartsWithBom' or f.body is None:
-            continue
-        m = re.search(r'StartsWithBom<' + re.escape(NS) + r'(\w+),', f.id)
-        ranges = [n for n in f.walk() if n['k'] == 'CXXForRangeStmt']
-        ment = trait_mentions(f, ranges)
-        rets = [n for n in f.walk() if n['k'] == 'ReturnStmt']
-        if len(ranges) == 1 and ment == {m.group(1)} and len(rets) == 2:
-            rep.ok('R13.2', 'StartsWithBom<%s>' % f.id.split('StartsWithBom<')[1].split('|')[0][:80])
-        else:
-            rep.finding('R13.2', 'StartsWithBom<%s>|shape' % m.group(1), f.loc(), 'StartsWithBom<%s> does not iterate %s::bom (iterates %s)'
-                        % (m.group(1), m.group(1), sorted(ment)), func=f.id)
+    check_starts_with_bom(prog, rep, bt)
 
     # ---------------------------------------------------------------- R13.3
     check_switches(prog, rep, 'R13.3')
@@ -612,3 +601,160 @@ def check_detect(rep, det, site, enc, offset, res, what, enum):
                         'DetectEncoding: %s: %s (expected %s, offset %d)' % (what, msg, enc, offset), func=det.id)
     else:
         rep.ok('R13.5', site, sample={'input': what, 'detected': enc, 'offset': offset, 'probes': sum(len(r[2]) for r in res)})
+
+
+def check_starts_with_bom(prog, rep, bt):
+    """StartsWithBom<Traits>(text), every instantiation, executed over texts built from the BOM of the traits class: the BOM itself, the BOM
+    followed by a character, every proper prefix, and the BOM with one byte changed - true exactly when the text begins with the whole BOM."""
+    from bsv.dtab import TOP, Interp, Model, _LoopExit
+    from bsv.facts import child
+
+    class It(object):
+        __slots__ = ('i',)
+
+        def __init__(self, i):
+            self.i = i
+
+    class M(Model):
+        unroll_loops = True
+
+        def __init__(self, data, arrays):
+            self.data, self.arrays = data, arrays
+
+        def initial_store(self, it, key):
+            return TOP
+
+        def global_value(self, it, q):
+            return self.arrays.get(q, TOP)
+
+        def compare(self, it, fr, n, op, a, b):
+            if isinstance(a, It) and isinstance(b, It):
+                return 1 if {'==': a.i == b.i, '!=': a.i != b.i, '<': a.i < b.i, '<=': a.i <= b.i, '>': a.i > b.i, '>=': a.i >= b.i}[op] else 0
+            raise AnalysisBroken('R13.2: comparison outside the model in StartsWithBom at %s' % fr.f.loc(n))
+
+        def deref(self, it, fr, n, v):
+            if isinstance(v, It):
+                if not 0 <= v.i < len(self.data):
+                    it.act('OOB', v.i)
+                    return 0
+                return self.data[v.i]
+            return TOP
+
+        def arith(self, it, fr, n, op, a, b):
+            if isinstance(a, It) and isinstance(b, int) and op in ('+', '-'):
+                return It(a.i + b if op == '+' else a.i - b)
+            if isinstance(a, It) and isinstance(b, It) and op == '-':
+                return a.i - b.i
+            return TOP
+
+        def construct(self, it, fr, n, depth):
+            vals = [it.ev(fr, a, depth) for a in n.get('c', ())]
+            return vals[0] if len(vals) == 1 else TOP
+
+        def primitive(self, it, fr, n, callee, depth):
+            name = callee['n']
+            obj, args = it.call_args(fr, n)
+            ops = ([obj] if obj is not None else []) + list(args)
+            vals = [it.ev(fr, a, depth) for a in ops]
+            q = strip_targs(callee['q'])
+            if q in ('std::cbegin', 'std::begin') or name in ('begin', 'cbegin', 'data'):
+                if vals and isinstance(vals[0], list):
+                    return vals[0]
+                return It(0)
+            if q in ('std::cend', 'std::end') or name in ('end', 'cend'):
+                return It(len(self.data))
+            if q in ('std::size',) and vals and isinstance(vals[0], list):
+                return len(vals[0])
+            if name in ('size', 'length'):
+                return len(self.data)
+            if name == 'empty':
+                return 0 if self.data else 1
+            if name in ('operator[]', 'at') and len(vals) == 2 and isinstance(vals[1], int):
+                if not 0 <= vals[1] < len(self.data):
+                    it.act('OOB', vals[1])
+                    return 0
+                return self.data[vals[1]]
+            if name == 'operator*' and vals:
+                return self.deref(it, fr, n, vals[0])
+            if name in ('operator==', 'operator!=') and len(vals) == 2:
+                return self.compare(it, fr, n, name[8:], vals[0], vals[1])
+            if name == 'operator++' and ops:
+                key = it.lvalue(fr, ops[0], depth)
+                if isinstance(vals[0], It) and key is not None:
+                    it.write_key(fr, key, It(vals[0].i + 1))
+                    return vals[0] if len(ops) > 1 else It(vals[0].i + 1)
+            if name in ('substr', 'compare', 'starts_with', 'memcmp', 'equal'):
+                raise AnalysisBroken('R13.2: %s() in StartsWithBom is not in the model' % name)
+            return TOP
+
+    class BI(Interp):
+        def cast_other(self, v, t):
+            return v
+
+        def coerce(self, v, t):
+            if isinstance(v, (It, list)):
+                return v
+            return Interp.coerce(self, v, t)
+
+        def add(self, v, delta, t):
+            if isinstance(v, It):
+                return It(v.i + delta)
+            return Interp.add(self, v, delta, t)
+
+        def exec_loop(self, fr, n, depth):
+            if n['k'] == 'CXXForRangeStmt':
+                rng = child(n, 'range')
+                q = [x.get('q') for x in fr.f.walk(rng) if x['k'] == 'DeclRefExpr' and x.get('g')]
+                arr = self.model.arrays.get(q[0]) if q else None
+                lv = child(n, 'loopvar')
+                if arr is not None and lv is not None and lv.get('decls'):
+                    for v in arr:
+                        fr.env[lv['decls'][0]['d']] = v
+                        try:
+                            self.exec(fr, child(n, 'body'), depth)
+                        except _LoopExit as e:
+                            if e.kind == 'BreakStmt':
+                                break
+                    return
+            return Interp.exec_loop(self, fr, n, depth)
+
+    arrays = {}
+    for key, gl in prog.globals.items():
+        g = gl[0]
+        if g['q'].startswith(NS) and g['q'].endswith('::bom') and isinstance(g.get('val'), list):
+            arrays[g['q']] = list(g['val'])
+    k = 0
+    for f in sorted(prog.funcs.values(), key=lambda g: g.id):
+        if strip_targs(f.q) != NS + 'StartsWithBom' or f.body is None:
+            continue
+        m = re.search(r'StartsWithBom<' + re.escape(NS) + r'(\w+),', f.id)
+        if not m or NS + m.group(1) + '::bom' not in arrays:
+            raise AnalysisBroken('R13.2: traits class of %s not recognised' % f.id[:100])
+        bom = arrays[NS + m.group(1) + '::bom']
+        rep.touch(f)
+        k += 1
+        cells = [(list(bom), True), (bom + [65], True), ([], False)]
+        cells += [(bom[:i], False) for i in range(1, len(bom))]
+        cells += [(bom[:i] + [(bom[i] + 1 + 128) % 256 - 128] + bom[i + 1:], False) for i in range(len(bom))]
+        bad = None
+        for data, want in cells:
+            model = M(data, arrays)
+            it = BI(prog, model, max_depth=1, max_paths=20)
+
+            def init(it_, fr):
+                for p in f.params:
+                    fr.env[p['d']] = TOP
+            for p in it.run(f, init):
+                got = p.outcome[1] if p.outcome[0] == 'RET' else 'throws'
+                oob = any(a[0] == 'OOB' for a in p.actions)
+                if oob:
+                    bad = bad or 'reads behind the end of the text %s' % ([x & 0xff for x in data],)
+                elif got not in (0, 1, True, False) or bool(got) != want:
+                    bad = bad or 'text %s: returns %s, expected %s' % (['%02X' % (x & 0xff) for x in data], got, want)
+        site = 'StartsWithBom<%s>' % f.id.split('StartsWithBom<')[1].split('|')[0][:80]
+        if bad:
+            rep.finding('R13.2', 'StartsWithBom<%s>|table' % m.group(1), f.loc(), 'StartsWithBom<%s> (BOM %s): %s' % (m.group(1), ['%02X' % (x & 0xff) for x in bom], bad), func=f.id)
+        else:
+            rep.ok('R13.2', site, sample={'traits': m.group(1), 'cells': len(cells)} if k <= 5 else None)
+    if k == 0:
+        raise AnalysisBroken('R13.2: no instantiation of StartsWithBom')
